@@ -286,3 +286,21 @@ Proof.
   - intros b Hb. rewrite forallb_forall in H2. specialize (H2 b Hb). apply Bool.eqb_prop in H2.
     rewrite <- Z.eqb_eq, H2. apply cell_eqb_spec.
 Qed.
+
+(* attribute access wl.<s>, for the implementation's output: a spelling of the
+   concept / language column returned rows / cols, a spelling of another column
+   its entry table - whatever the metadata holds *)
+Theorem attr_b_spec S ri ci q : attr_b S ri ci q = true ->
+  forall k s a, nth_error (q_attrs q) k = Some s -> nth_error (s_attrs S) k = Some a ->
+    (dim_of s = Some true -> a = AList (s_rows S)) /\
+    (dim_of s = Some false -> a = AList (s_cols S)) /\
+    (dim_of s = None -> forall c, expected_idx s (s_columns S) = Some c ->
+       a = ATable (map (map (ent (s_data S) (Some c))) (s_array S))).
+Proof.
+  unfold attr_b. rewrite andb_true_iff. intros [H _] k s a Hs Ha.
+  pose proof (forallb_combine_nth _ _ _ H k s a Hs Ha) as F. cbn [fst snd] in F.
+  split; [|split].
+  - intros E. rewrite E in F. destruct a; try discriminate. apply zl_eqb_spec in F. subst. reflexivity.
+  - intros E. rewrite E in F. destruct a; try discriminate. apply zl_eqb_spec in F. subst. reflexivity.
+  - intros E c Ec. rewrite E, Ec in F. destruct a; try discriminate. apply cll_eqb_spec in F. subst. reflexivity.
+Qed.
